@@ -32,16 +32,19 @@ theorem inv_empty : Inv ([] : St) ∧ ∀ ver a, ¬ denS [] ver a := by
 theorem add_net_spec (s : St) (hs : Inv s) (n : Net) (hn : n.WF) :
     Inv (addNet s n) ∧
     ∀ ver a, denS (addNet s n) ver a ↔ denS s ver a ∨ (ver = n.ver ∧ n.first ≤ a ∧ a ≤ n.last) := by
-  obtain ⟨hg, hb, hv, hp⟩ := netCidr_good n hn
-  have hfl : (netCidr n).first = n.first ∧ (netCidr n).last = n.last := by
-    have h1 : (netCidr n).first = n.first := by
-      have := congrArg Blk.base hb; simpa [blk] using this
-    refine ⟨h1, ?_⟩
-    rw [last_eq _ hg.1, last_eq n hn, h1, hv, hp]
-  have := compactSingle_spec s hs (netCidr n) hg
-  unfold addNet
-  refine ⟨this.1, fun ver a => ?_⟩
-  rw [this.2 ver a, hfl.1, hfl.2, hv]
+  obtain ⟨h1, h2⟩ := IPSet.add_spec s hs (.net n) hn
+  refine ⟨h1, fun ver a => ?_⟩
+  have := h2 ver a
+  unfold argDen at this
+  show denS (add s (.net n)) ver a ↔ _
+  rw [this]
+  constructor
+  · rintro (h | ⟨e, h⟩)
+    · exact Or.inl h
+    · exact Or.inr ⟨e.symm, h⟩
+  · rintro (h | ⟨e, h⟩)
+    · exact Or.inl h
+    · exact Or.inr ⟨e.symm, h⟩
 
 /-- any sequence of `add` calls from the empty set: canonical at every point, and the
     denotation is the union of the arguments (induction over the history) -/
@@ -151,17 +154,22 @@ theorem update_list_spec (s : St) (hs : ∀ n ∈ s, Good n) (xs : List Arg) (hx
     Inv (updateList s xs) ∧ ∀ u a, denS (updateList s xs) u a ↔ denS s u a ∨ argsDen xs u a :=
   updateList_spec s hs xs hx
 
+/-- `remove(x)` for every argument form: canonical again, old addresses minus the argument -/
+theorem remove_spec (s : St) (hs : Inv s) (x : Arg) (hx : ArgOK x) :
+    Inv (remove s x) ∧ ∀ u a, denS (remove s x) u a ↔ denS s u a ∧ ¬ argDen x u a :=
+  IPSet.remove_spec s hs x hx
+
 /-- **Every reachable state.**  After ANY finite history over any number of live sets —
-    constructors from a network / range / set / list, `add`, both `update` forms, `clear`,
+    constructors from a network / range / set / list, `add`, `remove`, both `update` forms, `clear`,
     `pop`, `compact`, `copy`/pickling, and the results of `|` and `&` — every live set is
     canonical (`Inv`) and denotes exactly the (version, address) pairs that plain set theory
     assigns to that history (`specStep`).  Induction over the history; one `step_rel` case
     per operation.
 
-    PARTIAL: `Op.OK` excludes `remove`, `-` and `^`.  The full statement is this theorem
+    PARTIAL: `Op.OK` excludes the operators `-` and `^`.  The full statement is this theorem
     with `Op.OK` only demanding well-formed arguments; what is missing is the step case for
-    those three operations (their specifications are stated in `specStep`, `combine`); they
-    are tied by correspondence and the oracle only. -/
+    those two operators (their specifications are stated in `combine`); they are tied by
+    correspondence and the oracle only. -/
 theorem reachable_partial (ops : List Op) (hok : ∀ op ∈ ops, op.OK) :
     ∀ i, Inv (getSet (runOps ops) i) ∧
       ∀ u a, denS (getSet (runOps ops) i) u a ↔ (runBoth ops).2 i u a := by
